@@ -140,6 +140,7 @@ const HISTORY_EXPRESSIONS: &[&str] = &[
   "{}",
   "[{a: 1}, {a: 2}][a > x]",
   "[1, 2, 3][item > x]",
+  "[{item: 1, a: 1}, {item: 2, a: 2}][item >= x]",
   "for i in [1, 2] return i + x",
   "for i in [1, 2], j in [x, 3] return [i, j]",
   "for i in 1..2 return for j in [i] return j + x",
